@@ -13,6 +13,9 @@ def check(ctx):
     nu = _tzr.check_utc_shortcut(ctx, rep)
     rep.floor("lookup-free UTC results in the Zinc reader", nu, 1)
     n = zincspec.check(ctx, rep)
+    from rules import zincspec as _zl
+    nla = _zl.check_lookahead_on_demand(ctx, rep)
+    rep.floor("propagated look-aheads in the number / date dispatcher", nla, 2)
     from rules import tz as _tzg
     _tzg.check_utc_guard(ctx, rep)
     _tzg.check_offset_fields(ctx, rep)
